@@ -131,7 +131,7 @@ theorem req_perm (s : Nat) (kids : List Tree) (hc : slotCount s kids = 1)
     · have hc' : slotCount s ks = 1 := by simpa [slotCount, h] using hc
       simpa [h] using ih hc'
 
-theorem split_perm (s : Nat) (kids : List Tree) (hc : splitOk s kids = true)
+theorem split_perm (s : Nat) (kids : List Tree)
     (H : ∀ k ∈ kids, (enters (walk tbl keep k)).Perm (visible keep k)) :
     (enters (walkLead tbl keep s kids) ++ enters (walkTrail tbl keep s kids)).Perm
       ((kids.filter fun k => k.slot = s).flatMap (visible keep)) := by
@@ -139,25 +139,19 @@ theorem split_perm (s : Nat) (kids : List Tree) (hc : splitOk s kids = true)
   | nil => simp [walkLead, walkTrail, enters]
   | cons k ks ih =>
     have hk := H k (by simp)
-    have ih := fun hc => ih hc fun x hx => H x (by simp [hx])
+    have hks : ∀ x ∈ ks, (enters (walk tbl keep x)).Perm (visible keep x) :=
+      fun x hx => H x (by simp [hx])
+    have ih := ih hks
     simp only [walkLead, walkTrail]
     by_cases h : k.slot = s
     · by_cases hf : k.flag = true
-      · simp only [splitOk, h, hf, decide_true, Bool.and_self, if_true, Bool.and_eq_true] at hc
-        have h0 : ks.filter (fun k => k.slot = s) = [] := by
-          rw [List.filter_eq_nil_iff]
-          intro a ha
-          have := List.all_eq_true.mp hc.1 a ha
-          simpa using this
-        simp only [h, hf, if_true, List.filter_cons, decide_true, List.flatMap_cons, h0,
-          List.flatMap_nil, List.append_nil, enters, List.nil_append]
-        exact hk
-      · have hc' : splitOk s ks = true := by simpa [splitOk, h, hf] using hc
-        simp only [h, hf, if_true, List.filter_cons, decide_true, List.flatMap_cons,
+      · simp only [h, hf, if_true, List.filter_cons, decide_true, List.flatMap_cons,
+          enters, List.nil_append, enters_append]
+        exact hk.append (sel_perm tbl keep s ks hks)
+      · simp only [h, hf, if_true, List.filter_cons, decide_true, List.flatMap_cons,
           Bool.false_eq_true, if_false, enters_append, List.append_assoc]
-        exact hk.append (ih hc')
-    · have hc' : splitOk s ks = true := by simpa [splitOk, h] using hc
-      simpa [h] using ih hc'
+        exact hk.append ih
+    · simpa [h] using ih
 
 end perm
 
@@ -234,8 +228,7 @@ theorem instr_perm (tbl : Table) (keep : Nat → Bool) (kids : List Tree) (i : I
   | list => simpa [enters] using sel_perm tbl keep i.slot kids H
   | comments => simpa [enters] using sel_perm tbl keep i.slot kids H
   | split b =>
-    simp only [hop] at hok
-    cases b <;> simpa [enters] using split_perm tbl keep i.slot kids hok H
+    cases b <;> simpa [enters] using split_perm tbl keep i.slot kids H
 
 theorem node_perm (tbl : Table) (keep : Nat → Bool) (n : Nat) (instrs : List Instr) (kids : List Tree)
     (hp : (instrs.map (·.slot)).Perm (List.range n))
@@ -350,7 +343,9 @@ theorem trail_good (s : Nat) (kids : List Tree) (H : ∀ k ∈ kids, G (walk tbl
     simp only [walkTrail]
     by_cases h : k.slot = s
     · cases hf : k.flag with
-      | true => simpa [h, hf] using H k (by simp)
+      | true =>
+        simpa [h, hf] using happ _ _ (H k (by simp))
+          (sel_good tbl keep G h0 happ s ks fun x hx => H x (by simp [hx]))
       | false => simpa [h, hf] using ih
     · simpa [h] using ih
 
